@@ -367,6 +367,7 @@ static void run_case(std::istream &in, int via) {
     head << "end a=" << (int)coro_queue::is_active() << " q=" << rq.size() << " susp=" << susp << " res=";
     for (std::size_t i = 0; i < cs.co.size(); ++i) head << (i ? "," : "") << cs.co[i]->resumes;
     print_line(head.str());
+    std::cout.flush();
     // shut the case down: everything still suspended is resumed and returns at once. Done by hand (queue installed
     // and drained here) so that the verdict on the case never depends on the code under test once more.
     cs.shutdown = true;
